@@ -555,6 +555,122 @@ def h_bonds(g: int, idsel: int, o0: int, o1: int, mark: int, mark_bond: int, rev
     return h_frag(g, idsel, offsel, 2, 0, 1, None, -1, None, 13, 1, 0, None, 2, -1, o0, o1, mark, mark_bond, rev)
 
 
+# ------------------------------------------------------------------------------------------------ label lookups on real files (CDXMLFile.__getitem__)
+# three drawn fragments: (elements, charges, radicals, bonds with order, stereo mark on bond 0)
+PAGE = [dict(name="alpha", el=[7, 6, 6, 8], q=[1, 0, 0, 0], rad=[None, None, None, None], bonds=[(0, 1, None), (0, 2, None), (0, 3, "2")], mark="WedgeBegin"),
+        dict(name="beta", el=[6, 6, 17], q=[0, 0, -1], rad=["Doublet", None, None], bonds=[(0, 1, "2"), (1, 2, None)], mark=None),
+        dict(name="gamma", el=[15, 6, 6, 6, 9], q=[0, 0, 0, 0, 0], rad=[None] * 5, bonds=[(0, 1, None), (0, 2, None), (0, 3, None), (1, 4, None)], mark="WedgedHashBegin")]
+LAYOUTS = [((0, 1, 2), (0.0, 0.0), 1), ((2, 0, 1), (310.0, 95.5), 40), ((1, 2, 0), (-20.0, 400.0), 7)]      # fragment order in the file, page offset, first id
+
+
+def _page_xml(order, off, id0):
+    """a CDXML text with the three fragments in the given file order, each with its bold label below it; ids numbered from id0; everything shifted by off"""
+    out = ['<?xml version="1.0" encoding="UTF-8" ?>', '<CDXML BondLength="30">', '<page id="1">']
+    nid = id0
+    labels = []
+    for slot, fi in enumerate(order):
+        F = PAGE[fi]
+        x0, y0 = 100.0 + 200.0 * fi + off[0], 100.0 + off[1]
+        pts = [(x0 + POS[i][0] - 100.0, y0 + POS[i][1] - 100.0) for i in range(len(F["el"]))]
+        xs, ys = [p[0] for p in pts], [p[1] for p in pts]
+        out.append(f'<fragment id="{nid}" BoundingBox="{min(xs)} {min(ys)} {max(xs)} {max(ys)}">')
+        nid += 1
+        ids = []
+        for i, e in enumerate(F["el"]):
+            a = f'<n id="{nid}" p="{pts[i][0]} {pts[i][1]}"' + (f' Element="{e}"' if e != 6 else "") + (f' Charge="{F["q"][i]}"' if F["q"][i] else "") + (f' Radical="{F["rad"][i]}"' if F["rad"][i] else "") + " />"
+            ids.append(nid)
+            nid += 1
+            out.append(a)
+        for k, (b, e, o) in enumerate(F["bonds"]):
+            out.append(f'<b id="{nid}" B="{ids[b]}" E="{ids[e]}"' + (f' Order="{o}"' if o else "") + (f' Display="{F["mark"]}"' if (k == 0 and F["mark"]) else "") + " />")
+            nid += 1
+        out.append("</fragment>")
+        labels.append(f'<t id="{nid}" p="{(min(xs) + max(xs)) / 2} {max(ys) + 25.0}"><s font="3" size="10" face="1">{F["name"]}</s></t>')
+        nid += 1
+    out += labels[::-1] + ["</page>", "</CDXML>"]
+    return "\n".join(out)
+
+
+_FILES = []
+
+
+def _page_files():
+    """the generated files are written once per process, outside any symbolic run (CrossHair does not let traced code write files)"""
+    if not _FILES:
+        import tempfile, atexit, shutil
+        d = tempfile.mkdtemp(prefix="c13_pages_")
+        atexit.register(shutil.rmtree, d, True)
+        for k, (order, off, id0) in enumerate(LAYOUTS):
+            fn = os.path.join(d, f"page{k}.cdxml")
+            with open(fn, "w") as f:
+                f.write(_page_xml(order, off, id0))
+            _FILES.append(fn)
+    return _FILES
+
+
+_page_files()
+with warnings.catch_warnings():
+    warnings.simplefilter("ignore")
+    _ref = CX.CDXMLFile(_page_files()[0])
+    REF = {F["name"]: _ref[F["name"]].coords.copy() for F in PAGE}         # fresh parse of the reference layout, taken once per process
+MUTS = ["none", "add_implicit_hydrogens", "charge", "mirror", "del_atom", "translate"]
+
+
+def _matches(m, F):
+    if m.n_atoms != len(F["el"]) or m.n_bonds != len(F["bonds"]) or m.name != F["name"]:
+        return False
+    if [int(a.element) for a in m.atoms] != F["el"] or [a.formal_charge for a in m.atoms] != F["q"]:
+        return False
+    if m.charge != sum(F["q"]) or m.mult != 1 + sum({None: 0, "Doublet": 1, "Singlet": 2}[r] for r in F["rad"]):
+        return False
+    for bd, (b, e, o) in zip(m.bonds, F["bonds"]):
+        if {m.index_atom(bd.a1), m.index_atom(bd.a2)} != {b, e} or bd.btype != WANT_ORDER[ORDERS.index(o)]:
+            return False
+    return True
+
+
+def h_lookup(layout: int, k1: int, mut: int, k2: int, by_index: bool, k3: int) -> bool:
+    """
+    histories of label lookups on one CDXMLFile object (real ElementTree, real KD-tree, generated 3-fragment files in 3 layouts): look a label up,
+    modify the molecule that came back, look labels up again (by name or position): every lookup gives the drawn fragment of that label, as a
+    fresh parse gives it, whatever was looked up or done to earlier results; the layout (file order, page offset, id numbering) does not matter
+    pre: 0 <= layout < len(LAYOUTS) and 0 <= k1 < 3 and 0 <= mut < len(MUTS) and 0 <= k2 < 3 and 0 <= k3 < 3
+    pre: SPLIT < 0 or (layout == SPLIT // 3 and k1 == SPLIT % 3)
+    pre: not QUICK or (k3 == (k1 + 1) % 3 and by_index == (k2 == 1))
+    post: _
+    """
+    fn = _page_files()[pick(layout, len(LAYOUTS))]
+    k1, k2, k3, mu = pick(k1, 3), pick(k2, 3), pick(k3, 3), MUTS[pick(mut, len(MUTS))]
+    with warnings.catch_warnings():
+        warnings.simplefilter("ignore")
+        F = CX.CDXMLFile(fn)
+        keys = list(F.keys())
+        if sorted(keys) != ["alpha", "beta", "gamma"]:
+            return False
+        m1 = F[PAGE[k1]["name"]]
+        if not _matches(m1, PAGE[k1]):
+            return False
+        if mu == "add_implicit_hydrogens":
+            m1.add_implicit_hydrogens()
+        elif mu == "charge":
+            m1.charge = m1.charge + 1
+            m1.atoms[0].formal_charge = 3
+        elif mu == "mirror":
+            m1.coords[:, 2] *= -1
+        elif mu == "del_atom":
+            m1.del_atom(m1.atoms[-1])
+        elif mu == "translate":
+            m1.translate([1.0, 2.0, 3.0])
+        for kk, idx in ((k2, by_index), (k3, False)):
+            name = PAGE[kk]["name"]
+            m = F[keys.index(name)] if idx else F[name]
+            if not _matches(m, PAGE[kk]):
+                return False
+            if not np.allclose(m.coords, REF[name], atol=1e-9):
+                return False                                        # same model as a fresh parse of the reference layout (centred coordinates)
+    return True
+
+
 # -------------------------------------------------------------------------------------------------- element model validated on the bundled files
 def validate_element_model():
     """(a) N answers find/findall/get/iteration like ElementTree on every fragment of every bundled CDXML file and on generated fragments;
@@ -600,7 +716,7 @@ def validate_element_model():
     return k
 
 
-ENCODED = ["molli.ftypes.cdxml._cdxml_3dify_", "molli.ftypes.cdxml.CDXMLFile._parse_fragment", "molli.ftypes.cdxml.CDXMLFile._parse_atom_node", "molli.ftypes.cdxml.CDXMLFile._parse_bond",
+ENCODED = ["molli.ftypes.cdxml.CDXMLFile.__getitem__", "molli.ftypes.cdxml.CDXMLFile.__attrs_post_init__", "molli.ftypes.cdxml._cdxml_3dify_", "molli.ftypes.cdxml.CDXMLFile._parse_fragment", "molli.ftypes.cdxml.CDXMLFile._parse_atom_node", "molli.ftypes.cdxml.CDXMLFile._parse_bond",
            "molli.ftypes.cdxml.position", "molli.math.rotation.rotate_2dvec_outa_plane", "molli.math.rotation.rotation_matrix_from_axis", "molli.math.rotation.rotation_matrix_from_vectors",
            "molli.chem.geometry.CartesianGeometry.translate", "molli.chem.geometry.CartesianGeometry.transform", "molli.chem.structure.Substructure"]
 
@@ -620,8 +736,10 @@ def run(rep, tier):
                                      "the model and its mirror image get mirrored marks; the sign LAPACK gives the normal is free in both runs",
                   "XH constitution": "fragments of 2-5 nodes (4 graphs): charges in [-4,4], isotopes in [1,300], hydrogen counts in [0,4] symbolic ints rendered into attribute strings (absent or present); elements from "
                                      f"{ELEMS}, radicals {RADS}, attachment point on any of the first three nodes, bond orders {ORDERS}, one stereo mark from {MARKS[1:]} on either of the first two bonds, 3 id numberings, "
-                                     "nodes listed forwards / backwards, 3 page offsets"}
-    rep.outside = ["XML parsing itself and CDXMLFile.__attrs_post_init__ / __getitem__: label -> fragment resolution through scipy's KDTree is not encoded (label resolution is NOT claimed)",
+                                     "nodes listed forwards / backwards, 3 page offsets",
+                  "XH lookups": "real CDXMLFile objects on generated 3-fragment files in 3 layouts (file order, page offset, id numbering): lookup, one of 6 modifications of the returned molecule, "
+                                "two more lookups by label or position [selector-bound]"}
+    rep.outside = ["label -> fragment resolution for arbitrary page geometry (scipy's KDTree is not encoded; lookups are exercised on generated pages with each label below its fragment, and on nothing else)",
                    "nested fragments (Molecule.join is C12's subject), multi-attachment (hapto) centres, 'Triplet' radicals, dashed (dative) bonds",
                    "marks on centres whose neighbours are neither flat nor exactly in one of the menu planes; more than one earlier mark; reals, not floats",
                    "the SVD inside mean_plane: contract 'flat point set -> +z' (validated against numpy each run) and 'tilted plane -> +- its unit normal, sign free'"]
@@ -649,6 +767,7 @@ def run(rep, tier):
     env = {} if q else {"XH_THOROUGH": "1"}
     specs = [{"fn": "h_bonds", "timeout": 900 if q else 3000, "split": 4 * mk + g, "env": env} for mk in range(len(MARKS)) for g in range(len(GRAPHS))]
     specs += [{"fn": "h_atoms", "timeout": 900 if q else 3000, "split": e, "env": env} for e in range(len(ELEMS))]
+    specs += [{"fn": "h_lookup", "timeout": 900 if q else 3000, "split": sp, "env": env} for sp in range(9)]
     xh.run_obligations(rep, "harness.C13", specs)
 
 
